@@ -92,6 +92,10 @@ def run_case_(args):
         attach_read_log(child)
         rec = Recorder(child, mapping)
         raw = mapping.raw(expand(stream))
+        if opts.get('cut_tail'):
+            # the stream ends inside a multi-byte character (a child killed mid-character, truncated output): the text
+            # before it is delivered and the end of the stream is reported as for any other stream
+            raw += '\u2596'.encode(mapping.encoding)[:-1]
         data = list(raw)
         w.unit = lambda i: bytes([data[i]]) if i < len(data) else b'?'
         hang = 'PeerExit' if tr == 'pty' else 'PeerClose'
@@ -221,8 +225,22 @@ def corpus(ctx, pool):
                                 opts['use_poll'] = bool(tid % 2)
                             jobs.append((ctx.work, tid, tr, uni, 'timeout', entry, pl, stream, opts))
                             tid += 1
+    npoll = len(jobs) - nbase - nrem
+    # unicode objects whose stream ends inside a multi-byte character
+    for tr in TRANSPORTS:
+        for entry in ('expect', 'expect_exact', 'expect_list', 'read', 'readline'):
+            for pl in ([[P.lit('x')], [P.lit('x'), P.EOFM], [P.EOFM, P.TMOM]] if entry.startswith('expect') else [None]):
+                for stream in ('', 'ab'):
+                    for early in (False, True):
+                        if ctx.quick() and rng.random() > 0.3:
+                            continue
+                        opts = {'cut_tail': True, 'reps': 2, 'early': early}
+                        if tr in HAS_POLL:
+                            opts['use_poll'] = bool(tid % 2)
+                        jobs.append((ctx.work, tid, tr, True, 'eof', entry, pl or [], stream, opts))
+                        tid += 1
     outs = pmap(pool, run_case, jobs, chunksize=4, timeout=1500)
-    corpus.counts = (nbase, nrem, len(jobs) - nbase - nrem)
+    corpus.counts = (nbase, nrem, npoll, len(jobs) - nbase - nrem - npoll)
     return outs
 
 
